@@ -3191,11 +3191,25 @@ fn generate_constraints_expr(
                                 TypeVar::from_node(ctx, receiver_expr.node()).single()
                             {
                                 let ty_key = potential_ty.key();
-                                if let Some((memfn_decl, _)) = ctx
-                                    .member_functions
-                                    .get(&(ty_key, fname.v.clone()))
-                                    .cloned()
-                                {
+                                let memfn_decl = match &potential_ty {
+                                    // a type variable has the methods of the interfaces that
+                                    // constrain it: `x.foo()` for `x: T Foo`
+                                    PotentialType::Poly(_, decl) => {
+                                        decl.interfaces(ctx).into_iter().find_map(|constraint| {
+                                            let (method_index, _) =
+                                                constraint.iface.get_method_by_name(&fname.v)?;
+                                            Some(Declaration::InterfaceMethod {
+                                                iface: constraint.iface.clone(),
+                                                method_index,
+                                            })
+                                        })
+                                    }
+                                    _ => ctx
+                                        .member_functions
+                                        .get(&(ty_key, fname.v.clone()))
+                                        .map(|(memfn_decl, _)| memfn_decl.clone()),
+                                };
+                                if let Some(memfn_decl) = memfn_decl {
                                     // used by bytecode translator
                                     ctx.resolution_map.insert(fname.id, memfn_decl.clone());
                                     // used when calculating function arg order
